@@ -168,7 +168,8 @@ fn start_server(sim: &mut turmoil::Sim<'static>, log: Arc<Mutex<Log>>) {
 
 #[derive(Debug, Clone)]
 pub enum Ev {
-    Send { n: usize, payload_len: usize, reply_len: usize, handler_delay_ms: u32, fresh_channel: bool },
+    /// `client_form`: 0 = `new` + `set_timeout`, 1 = clone of a configured client, 2 = clone of a clone
+    Send { n: usize, payload_len: usize, reply_len: usize, handler_delay_ms: u32, fresh_channel: bool, client_form: u8 },
     Partition,
     Repair,
     Hold,
@@ -218,7 +219,7 @@ impl Prop for NetFaults {
     }
 
     fn width(&self) -> usize {
-        25 * 6 + 4
+        25 * 7 + 4
     }
 
     fn shrink_budget(&self) -> usize {
@@ -241,6 +242,7 @@ impl Prop for NetFaults {
                     reply_len: *src.pick(&[0usize, 10, 1_000, 17_000, 40_000, CAP]),
                     handler_delay_ms: *src.pick(&[0u32, 0, 0, 3, 100, 700, 2_500, 6_000]),
                     fresh_channel: src.chance(1, 3),
+                    client_form: src.weighted(&[2, 2, 1]) as u8,
                 },
                 1 => Ev::Partition,
                 2 => Ev::Repair,
@@ -268,7 +270,7 @@ impl Prop for NetFaults {
     fn rule(&self) -> &'static str {
         "datacake-rpc client and server over hyper/h2 over turmoil's simulated TCP (1 ms tick, 1-5 ms latency, seeded); \
          client script of 3-25 events: send 1-4 concurrent requests (payload / reply 0 B - 48 KiB, handler delay 0 - 6 s, \
-         shared or fresh channel), partition, repair, hold, release, sleep 1 ms - 5.1 s, join; client timeout T in \
+         shared or fresh channel, client built directly or cloned once / twice from a configured one), partition, repair, hold, release, sleep 1 ms - 5.1 s, join; client timeout T in \
          {0.5,2,5 s}; the script ends with release + repair + join; oracle: every request ends as Ok(reply with its own id, \
          the digest of its own payload and the requested length) or Err(ConnectionError|Timeout) within T + 10 ms of \
          simulated time; the handler log holds every id at most once and every id whose client saw Ok, with the digest of \
@@ -296,7 +298,7 @@ fn run_net(case: &NetCase) -> Outcome {
         all.extend([Ev::Release, Ev::Repair, Ev::Join]);
         for ev in all {
             match ev {
-                Ev::Send { n, payload_len, reply_len, handler_delay_ms, fresh_channel } => {
+                Ev::Send { n, payload_len, reply_len, handler_delay_ms, fresh_channel, client_form } => {
                     for _ in 0..n {
                         let id = next_id;
                         next_id += 1;
@@ -304,8 +306,17 @@ fn run_net(case: &NetCase) -> Outcome {
                         let done = done2.clone();
                         let started_during_fault = faulty;
                         handles.push(tokio::spawn(async move {
-                            let mut client = RpcClient::<Echo>::new(channel);
-                            client.set_timeout(t);
+                            let mut base = RpcClient::<Echo>::new(channel);
+                            base.set_timeout(t);
+                            let client = match client_form {
+                                0 => base,
+                                1 => base.clone(),
+                                _ => {
+                                    let c = base.clone();
+                                    drop(base);
+                                    c.clone()
+                                },
+                            };
                             let payload: Vec<u8> = (0..payload_len).map(|i| (i as u64).wrapping_mul(id + 7) as u8).collect();
                             let msg = Ping { id, payload: payload.clone(), reply_len: reply_len as u32, handler_delay_ms, fail_with: 0, text: String::new() };
                             let started = tokio::time::Instant::now();
